@@ -101,6 +101,16 @@ CHECKS["C16"] = dict(
     design="5/C16",
 )
 
+CHECKS["C20"] = dict(
+    technique="metamorphic property test: programs annotated with opt-out comments at generated positions; skip_file output must equal the input byte-for-byte through three entry points, ignored lines must reappear verbatim, in order, with the same multiplicity",
+    text="(a) skip_file markers (several spellings) are inserted at drawn lines of valid, invalid and tiny texts and pushed through format_code, "
+         "format_file (bytes, mtime, return value) and main(['--from-stdin']); (b) rule-firing programs get 1-3 drawn physical lines annotated with "
+         "an ignore comment (only where the comment leaves the AST unchanged) and are formatted under drawn options; failures are attributed to the first "
+         "rule call after which the annotated lines are no longer intact.",
+    note="One known finding (F-C20-01: the direct text-editing rules ignore the comments) is matched by culprit rule; it cannot be excluded by construction, so its hits are counted in the evidence.",
+    design="5/C20",
+)
+
 NOT_YET = {}
 
 
